@@ -95,8 +95,92 @@ def run(r):
         return
     r.proofs()
 
+    # ---- tie (C): concrete marks and storage type of the modelled primitives
+    HEAD = ("From Coq Require Import List NArith Bool. Import ListNotations.\n"
+            "From UV Require Import Base.Value Model.Order Model.Flags.\nOpen Scope N_scope.\n")
+    n_tie = 1200 if quick else 20000
+    rc, out, err = run_bin("c05", ["tie", n_tie], seed=r.seed, timeout=1500)
+    cases = json_lines(out)
+    if rc != 0 or not cases:
+        r.broken_obligation("tie-harness", "c05 tie failed to run", (out + err)[-2000:])
+    conc = [c for c in cases if c["k"] == "c"]
+    rule = [c for c in cases if c["k"] == "r"]
+    shard = 150
+    jobs, index = [], []
+    for kind, lst, chk in (("c", conc, "ccase_check"), ("r", rule, "rcase_check")):
+        for si, ch in enumerate(chunks(lst, shard)):
+            body = ";\n".join("(%s)" % c["coq"] for c in ch)
+            jobs.append(("c05_tie_%s_%d" % (kind, si), HEAD + "Definition cases := [\n%s\n].\nEval vm_compute in (codes_from %s 0 cases).\n" % (body, chk)))
+            index.append(ch)
+    results = coq_eval_many(jobs, timeout=900)
+    CODE = {1: "result value differs", 2: "marks differ", 3: "error/success differs", 4: "no rule in the model",
+            5: "the implementation's marks are not truthful (flags_ok fails)"}
+    mism = []
+    for ch, (rc2, o) in zip(index, results):
+        if rc2 != 0:
+            r.broken_obligation("tie-eval", "Coq evaluation of a tie shard failed", o[-1500:])
+            continue
+        ints = coq_ints(o)
+        for i, code in zip(ints[0::2], ints[1::2]):
+            mism.append((ch[i], code))
+    per_prim = {}
+    for c in cases:
+        per_prim[c["p"]] = per_prim.get(c["p"], 0) + 1
+    # marks that are not truthful are failing inputs of the implementation, not a broken tie
+    untruthful = [(c, k) for c, k in mism if k == 5]
+    other = [(c, k) for c, k in mism if k != 5]
+    r.coverage["tie"] = {"kind": "C", "cases": len(cases), "concrete_cases": len(conc), "rule_cases": len(rule),
+                         "per_primitive": per_prim, "mismatches": len(other), "untruthful_marks": len(untruthful),
+                         "marked_results": sum(1 for c in cases if "true" in c["out"].split("marks")[-1])}
+    for c in cases[:2]:
+        r.sample({"tie_case": c["show"][:200], "result": c["out"][:200]})
+    r.log("tie: %d cases (%d concrete, %d rule), %d mismatches, %d untruthful" % (len(cases), len(conc), len(rule), len(other), len(untruthful)))
+    seen = set()
+    for c, k in untruthful:
+        key = "tie-untruthful/%s" % c["p"]
+        if key in seen:
+            continue
+        seen.add(key)
+        r.violation(key, "primitive %s returns marks that flags_ok rejects: %s -> %s" % (c["p"], c["show"][:300], c["out"][:200]),
+                    {"case": c["show"], "result": c["out"], "coq": c["coq"]}, theorem="C05_flag_algebra_sound")
+    if other:
+        byp = {}
+        for c, k in other:
+            byp.setdefault((c["p"], k), c)
+        detail = [{"prim": p, "why": CODE.get(k, k), "case": c["show"][:400], "impl_result": c["out"][:300]} for (p, k), c in sorted(byp.items())]
+        r.broken_obligation("tie:Flags.v~marks", "model and implementation disagree on marks/storage/value of a result for %s (%d of %d cases)"
+                            % (sorted(set(p for p, _ in byp)), len(other), len(cases)), json.dumps(detail, ensure_ascii=False)[:6000])
+
+    # ---- validator cross-check: check_value's verdict = deep_okb on exported values
+    n_x = 800 if quick else 12000
+    rc, out, err = run_bin("c05", ["xcheck", n_x], seed=r.seed, timeout=900)
+    xs = json_lines(out)
+    if rc != 0 or not xs:
+        r.broken_obligation("xcheck-harness", "c05 xcheck failed to run", (out + err)[-2000:])
+    jobs = []
+    xch = chunks(xs, 200)
+    for si, ch in enumerate(xch):
+        body = ";\n".join("XC %s %s %s" % (c["v"], c["ft"], "true" if c["ok"] else "false") for c in ch)
+        jobs.append(("c05_x_%d" % si, HEAD + "Definition cases := [\n%s\n].\nEval vm_compute in (failing_x 0 cases).\n" % body))
+    xm = []
+    for ch, (rc2, o) in zip(xch, coq_eval_many(jobs, timeout=900)):
+        if rc2 != 0:
+            r.broken_obligation("xcheck-eval", "Coq evaluation of a validator shard failed", o[-1500:])
+            continue
+        for i in coq_ints(o):
+            xm.append(ch[i])
+    r.coverage["validator_cross_check"] = {"values": len(xs), "rejected_by_validator": sum(1 for c in xs if not c["ok"]),
+                                           "disagreements": len(xm)}
+    r.log("validator cross-check: %d values (%d rejected), %d disagreements" % (len(xs), sum(1 for c in xs if not c["ok"]), len(xm)))
+    if xm:
+        c = xm[0]
+        r.broken_obligation("tie:check_value~deep_okb", "the validator hook and the Coq predicate disagree on %d of %d values" % (len(xm), len(xs)),
+                            json.dumps({"value": c["show"], "validator_ok": c["ok"], "validator_msg": c["msg"], "coq": c["v"], "marks": c["ft"]}, ensure_ascii=False))
+    for c in [x for x in xs if not x["ok"]][:1]:
+        r.sample({"mis-marked value": c["show"][:200], "validator": c["msg"]})
+
     # ---- search / monitor
-    n = 6000 if quick else 400000
+    n = 30000 if quick else 600000
     lines, skipped = search(r, n, NCPU if quick else NCPU * 4)
     clines, cskipped = _drive("corpus", 0, 0, r.seed)
     tot, prim, errk = sum_stats(lines)
@@ -121,7 +205,7 @@ def run(r):
     r.log("search: %d programs (%d completed), %d values checked (%d marked), %d corpus chunks, %d violation keys, %d skipped"
           % (tot.get("cases", 0), tot.get("ok", 0), tot.get("values", 0), tot.get("marked", 0), ctot.get("cases", 0),
              len(set(by_key) | set(by_key_c)), len(skipped) + len(cskipped)))
-    r.coverage["evaluations"] = tot.get("cases", 0) + ctot.get("cases", 0)
+    r.coverage["evaluations"] = tot.get("cases", 0) + ctot.get("cases", 0) + len(cases) + len(xs)
     r.coverage["distinct_nontrivial"] = tot.get("marked", 0)
     r.coverage["rule"] = ("programs = 1-3 top-level terms, each a composition (depth <= 2) of all non-system primitives and modifiers "
                           "(inverses, under, fill included) or a directed family (F after sort / sort-down, dyadic with special scalars, "
